@@ -429,6 +429,17 @@ def f3_resolver_shape(ctx: Ctx) -> None:
             found[r] = a.targets[0].id
         elif not tests[-1][1] and r == 'has_str':
             found['has_non_str'] = a.targets[0].id
+    # the magnitude test behind has_big_int is two-sided: large negative ints lose precision in float64 just as large positive ones
+    for a in flags_set:
+        tests = _enclosing_tests(lp, a)
+        if tests and tests[-1][1] and role_of(tests[-1][0]) == 'has_big_int':
+            t = tests[-1][0]
+            two_sided = any(isinstance(c, ast.Call) and call_name(c) == 'abs' and c.args and norm(c.args[0]) == 'v' for c in ast.walk(t)) or \
+                (any(isinstance(c, ast.Compare) and any(isinstance(o, (ast.Gt, ast.GtE)) for o in c.ops) for c in ast.walk(t)) and
+                 any(isinstance(c, ast.Compare) and any(isinstance(o, (ast.Lt, ast.LtE)) for o in c.ops) for c in ast.walk(t)))
+            (ctx.ok if two_sided else ctx.bad)(R, h, t, 'the big-int test looks at the magnitude (abs / both directions)' if two_sided else
+                                               f'`{norm(t)[:70]}` looks at large positive ints only: an int below -2**53 next to a float is cast to float64 and changes value',
+                                               key='prepare:big-int-two-sided')
     hn2 = roles.canonical(hn, found)
     src = [norm(n) for n in walk_local(hn2) if isinstance(n, ast.If)]
     need = [('has_tuple or has_enum or (has_str and has_non_str)', {'has_tuple', 'has_enum', 'has_str', 'has_non_str'}), ('has_big_int and has_inexact', {'has_big_int', 'has_inexact'})]
